@@ -1,6 +1,6 @@
 (* Properties/C03.v -- Guaranteed Reed-Solomon correction capacity (what is a theorem so far). *)
 From Coq Require Import Arith NArith List Bool.
-From DM Require Import Generated.Symbols Spec.GF256 Spec.Poly Spec.RSCode Model.Outcome Model.RSEnc Model.RSDec Proofs.SymbolListProofs Proofs.RSDecProofs Proofs.MinDistance Proofs.LDBound Proofs.NoMiscorrection.
+From DM Require Import Generated.Symbols Spec.GF256 Spec.Poly Spec.RSCode Model.Outcome Model.RSEnc Model.RSDec Proofs.SymbolListProofs Proofs.RSDecProofs Proofs.MinDistance Proofs.LDBound Proofs.NoMiscorrection Proofs.RSComplete.
 Import ListNotations.
 
 (* weight 0: every codeword vector of every size passes through the decoder unchanged *)
@@ -64,11 +64,35 @@ Theorem C03_no_miscorrection : forall s cD cE rcv c',
 Proof. exact no_miscorrection. Qed.
 Print Assumptions C03_no_miscorrection.
 
-(* NOT a theorem: completeness -- that for every such error pattern the decoder DOES report success (i.e. never answers
-   TooManyErrors / Malfunction / ErrorsOutsideRange within the radius) -- is the correctness of the Schmidt-Fettweis
-   Levinson-Durbin recursion with its singular-case step and of the Bjoerck-Pereyra solver.  It is covered by fault
-   enumeration in the check: every weight 0..t, every region of every block of all 48 sizes, every single position, and
-   the same damage applied to rendered modules. *)
+(* completeness -- the property itself: for every size, every codeword and EVERY received word that differs from it in
+   at most floor(k/2) codewords of each interleaved block, the decoder answers Ok with exactly that codeword.  The proof
+   follows the algorithm: the syndromes are the power sums of the error points; the identities (3)/(4) are invariants of
+   the Schmidt-Fettweis Levinson-Durbin recursion (Proofs/LDInv.v), and at its exit (3) bounds the order from above, the
+   annihilated rows from below, so [w, 1] is the error locator (Proofs/ErrLoc.v, transposed Vandermonde argument); the
+   Chien search returns exactly the inverse locators (Proofs/ChienCorrect.v); the Bjoerck-Pereyra stages turn the moments
+   into Newton functionals and peel them back to the weights by a telescoping product identity (Proofs/BPMath.v,
+   BPCorrect.v); every correction lands inside the block and the corrected word has no non-zero syndrome
+   (Proofs/RSComplete.v); uniqueness (C03_no_miscorrection) identifies the result. *)
+Theorem C03_corrects : forall s cD cE rcv,
+  let B := N.to_nat (num_ecc_blocks s) in let k := N.to_nat (num_ecc_per_block s) in let nd := N.to_nat (num_data_codewords s) in
+  length cD = nd -> length cE = (k * B)%nat -> Forall byte cD -> Forall byte cE -> is_codeword B k cD cE ->
+  length rcv = (nd + k * B)%nat -> Forall byte rcv ->
+  (forall b, (b < B)%nat ->
+     (ham (every B b cD) (every B b (firstn nd rcv)) + ham (every B b cE) (every B b (skipn nd rcv)) <= k / 2)%nat) ->
+  RSDec.decode rcv s = Ok (cD ++ cE).
+Proof. exact decode_complete. Qed.
+Print Assumptions C03_corrects.
+
+(* one interleaved block on its own *)
+Theorem C03_block_corrects : forall data error cdata cerror stride k,
+  stride <> 0%nat -> Forall byte data -> Forall byte error -> Forall byte cdata -> Forall byte cerror ->
+  length cdata = length data -> length cerror = length error ->
+  let rw := every stride 0 data ++ every stride 0 error in let cw := every stride 0 cdata ++ every stride 0 cerror in
+  (1 <= k)%nat -> (k < length rw)%nat -> (length rw <= 255)%nat -> block_ok k (map toF cw) -> (ham cw rw <= k / 2)%nat ->
+  exists d' e', decode_gen data error stride k = Ok (d', e').
+Proof. exact decode_gen_complete. Qed.
+Print Assumptions C03_block_corrects.
+
 Example C03_example :
   RSDec.decode [23; 40; 11; 0; 207; 37; 0; 81]%N Square10 = Ok [23; 40; 11; 255; 207; 37; 244; 81]%N.
 Proof. vm_compute. reflexivity. Qed.
